@@ -366,6 +366,17 @@ def _execute(prop, scen: Scenario, cfg, rng, recorded, res, hasher, keep_log, ma
     log = res["log"]
     failure: list = []
 
+    from amaranth.hdl import Value as _Value
+
+    in_width = {}
+    for name, sig in inp.items():
+        try:
+            val = _Value.cast(sig)
+            if not val.shape().signed:
+                in_width[name] = len(val)
+        except Exception:
+            pass
+
     async def driver(ctx):
         last: dict = {}
         try:
@@ -375,6 +386,11 @@ def _execute(prop, scen: Scenario, cfg, rng, recorded, res, hasher, keep_log, ma
                     stim = recorded[cyc]
                 else:
                     stim = scen.stimulus(rng, cyc)
+                for name, w in in_width.items():  # a recorded / shrunk value wider than its port is applied
+                    v = stim.get(name, 0)         # truncated: the oracle must see what the hardware sees
+                    if isinstance(v, int) and v >> w and v > 0:
+                        stim = dict(stim)
+                        stim[name] = v & ((1 << w) - 1)
                 stim_log.append(stim)
                 for name, sig in inp.items():
                     v = stim.get(name, 0)
